@@ -738,6 +738,10 @@ func runPack(cfg *Config, family string) *Result {
 			res.SetupError = err.Error()
 			return res
 		}
+		if strings.HasPrefix(cs, "packshrink ") {
+			runPackShrink(cfg, res, []string{cs})
+			return res
+		}
 		var c PackCase
 		if err := json.Unmarshal([]byte(cs), &c); err != nil {
 			res.SetupError = err.Error()
@@ -812,10 +816,44 @@ func runPack(cfg *Config, family string) *Result {
 			res.sample(truncate(lines[i], 300) + " => " + truncate(implLine, 300))
 		}
 	}
+	// a file that shrinks while it is being archived (see job_packshrink.go)
+	if (family == "chroot" || family == "mixed") && cfg.Replay == "" {
+		var sc []string
+		for i, sz := range []int{32768, 40000, 100000, 32768} {
+			c := packShrinkCase{Size: sz, Keep: []int{16, 0, 33000, 1}[i], Chroot: family == "chroot" || i%2 == 0}
+			b, _ := json.Marshal(c)
+			sc = append(sc, "packshrink "+string(b))
+		}
+		runPackShrink(cfg, res, sc)
+	}
 	for k, v := range packOracleStats {
 		res.Distribution[k] += v
 	}
 	return res
+}
+
+func runPackShrink(cfg *Config, res *Result, sc []string) {
+	{
+		var sj []Job
+		for i, c := range sc {
+			sj = append(sj, Job{ID: i, Kind: "packshrink", Args: []string{strings.TrimPrefix(c, "packshrink ")}})
+		}
+		for i, jr := range runArena(cfg, sj, 30*time.Second) {
+			res.Evaluations++
+			res.count("shrink:" + jr.Out)
+			if jr.Out == "setup" || jr.ID < 0 {
+				res.count("shrink-setup-failed")
+				continue
+			}
+			if jr.Out == "panic" || jr.Out == "hang" {
+				res.problem(Problem{Kind: "oracle", Stream: "pack", Case: sc[i], Msg: "C09: producer " + jr.Out + " when a file shrank while being archived: " + jr.Err})
+				continue
+			}
+			if jr.Extra != "" {
+				res.problem(Problem{Kind: "oracle", Stream: "pack", Case: sc[i], Msg: "C07: a file under the root shrank while being archived: " + jr.Extra})
+			}
+		}
+	}
 }
 
 // fieldsEqualWild: equal field by field; "*" on the model side matches anything (implicit mtimes)
